@@ -316,7 +316,7 @@ def Sim.svcStep (s : Sim) (j : Json) : Option (Sim × Json) :=
     let send (st0 : Store) : Store × Rpc (List Pack) × List Notification :=
       let (st, left) := st0.committedView
       let (st1, r, ns, jobs) := st.processPushPull col cuid packs
-      let st2 := if fault = "nosnap" || fault = "holdsnap" || fault = "holdbg" then st1 else jobs.foldl (fun acc (duid, colNum) =>
+      let st2 := if fault = "nosnap" || fault = "holdsnap" || fault = "holdbg" || fault = "holdread" then st1 else jobs.foldl (fun acc (duid, colNum) =>
         match acc.collections.find? (fun c => c.num = colNum) with
         | some cd => acc.updateSnapshot duid cd.name
         | none => acc) st1
